@@ -278,10 +278,9 @@ def run(ctx: Ctx, env):
                 parts[2][0] == "dyn" and parts[2][1] == ("field", "node", "attr")
         ctx.check(ok, "R5.django-path-spelling", "visit_Attribute", f"a path must be spelled F(<owner path> + '__' + <leaf>); got `{T.show(t)}`",
                   p.entry.get("where", ""), "author/name eq 'A'")
-    um = repo.modules.get("odata_query.django.utils")
-    if um and "reverse_relationship" in um.functions:
-        fn = um.functions["reverse_relationship"]
-        _reverse_relationship(ctx, env, um, fn)
+    rr = repo.function("odata_query.django.utils", "reverse_relationship")  # wherever a re-export leads
+    if rr is not None:
+        _reverse_relationship(ctx, env, rr[0], rr[1])
     ctx.assume("per-parent correlation of subqueries, many-to-many semantics and run-time agreement of both ORMs are not decided")
     ctx.trust("meaning table: Exists(q)/rel.any(c) = exists, q.filter(c) = and, ~x/not_ = not; Django constructor signatures read from the installed source")
 
